@@ -7,7 +7,8 @@
   returns after the return; `k*` are hook events logged inside the router):
     ahc,h / ah,h,p|n      AddHandler call / return (p: with publisher, n: AddNoPublisherHandler)
     rc,id / rr,id,nil|err,snap        Run call / return        rhc,id / rhr,id,nil|err   RunHandlers
-    sub,h                 Subscribe called on handler h's subscriber
+    sub,h / sube,h        Subscribe called on handler h's subscriber and about to succeed / about to fail (scripted fault)
+    nst,h                 Started() of handler h found still open (checked without waiting)      sgo  gated Subscribe calls released
     em,h,u / ea,h,u       subscriber emits message u / abandons the hand-over (nobody took it)
     hs,h,u / he,h,u,ok|err   handler function entered / about to return       hg,h,u  handler waits on the gate
     pb,h,n / pc,h         Publish / Close called on handler h's publisher
@@ -31,7 +32,7 @@ structure Ev where
 def knownKinds : List (String × Nat) :=
   [("ahc",1),("ah",2),("ahp",1),("rc",1),("rr",3),("rhc",1),("rhr",2),("sub",1),("em",2),("ea",2),("hs",2),("hg",2),("he",3),
    ("pb",2),("pc",1),("sc",1),("scr",1),("cc",1),("cr",3),("stp",1),("stpr",2),("st",1),("sd",1),("sdnil",1),("rng",0),
-   ("cx",0),("go",0),("qs",0),("rel",0),("wce",0),("fin",3),("kr",2),("ks",2),("kp",2),("kb",2),("kS",0),("kL",0),("kR",0),
+   ("cx",0),("go",0),("qs",0),("sube",1),("nst",1),("sgo",0),("rel",0),("wce",0),("fin",3),("kr",2),("ks",2),("kp",2),("kb",2),("kS",0),("kL",0),("kR",0),
    ("kh",1),("kg",1),("kw",0),("kd",1)]
 
 def numOf (f : String) : Nat :=
@@ -195,7 +196,10 @@ def c06Run (evs : Array Ev) : String := Id.run do
   for i in [0:evs.size] do
     let e := evs[i]!
     if e.k == "rr" && e.n0 == 0 then
-      if e.s1 != "nil" then return "violated:run_returned_error"
+      if e.s1 != "nil" then
+        -- Run hands back the error of its own RunHandlers call when a Subscribe failed
+        if anyBefore evs i (is "sube") then continue
+        return "violated:run_returned_error"
       if !anyBefore evs i (is "kS") then return "violated:run_returned_before_close"
       -- the waiter finished or the timeout fired: without a timeout both waits are done
       if !anyCloseErr evs && !(anyBefore evs i (is "kL") && anyBefore evs i (is "kR")) then
@@ -230,7 +234,12 @@ def c10Once (evs : Array Ev) : String := Id.run do
         let e := evs[i]!
         if e.k == "rhc" then
           match firstIdx evs (fun x => x.k == "rhr" && x.n0 == e.n0) with
-          | some r => if evs[r]!.s1 == "nil" && !anyBefore evs r (isH "sub" h) then return "violated:runhandlers_did_not_start_new_handler"
+          | some r =>
+            if evs[r]!.s1 == "nil" then
+              -- exactly one successful Subscribe by then, and Started() is closed from then on
+              if !anyBefore evs r (isH "sub" h) then return "violated:runhandlers_did_not_start_new_handler"
+              for j in [r:evs.size] do
+                if isH "nst" h evs[j]! then return "violated:runhandlers_returned_nil_but_started_not_closed"
           | none => pure ()
     | none => pure ()
   return "ok"
@@ -272,7 +281,7 @@ def c10SelfClose (evs : Array Ev) : String := Id.run do
   for e in evs do
     if e.k == "fin" && e.s.getD 0 "" != "0" then return "violated:stuck(a_wait_ran_into_the_liveness_bound)"
     if e.k == "fin" && e.n1 > 0 then return "violated:router_goroutine_remains"
-    if e.k == "rr" && e.n0 == 0 && e.s1 != "nil" then return "violated:run_returned_error"
+    if e.k == "rr" && e.n0 == 0 && e.s1 != "nil" && !anyEv evs (is "sube") then return "violated:run_returned_error"
     if e.k == "rr" && e.n0 != 0 && e.s1 != "err" then return "violated:second_run_did_not_fail"
   if anyEv evs (fun e => e.k == "rc" && e.n0 == 0) then
     let subs := handlersOf evs "sub"
